@@ -112,7 +112,7 @@ def replay_text(hdr, ops, upto):
         out.append('… %d earlier operations omitted (re-run the harness binary with the same seed for all) …' % lo)
     for op in ops[lo:upto + 1]:
         out.append('op %d %s %s' % (op.inst, op.name, ' '.join(op.args)))
-        for e in op.events[:60]:
+        for e in op.events[:200]:
             out.append('  ' + ' '.join(e))
         if op.ret is not None:
             out.append('  ret ' + op.ret[:200])
